@@ -379,6 +379,32 @@ def rule_key(chk, fb):
         for kf in sorted(keyfns):
             adt = fb.mir[kf].get("self_ty")
             targets = [(adt, kf.split("::")[-1], ())] + [t for t in targets if t[0] != adt]
+    # every lookup / registration in the table's map is keyed by the content key of the whole item
+    ru = chk.rule(
+        "C01.d.use",
+        "the table is looked up and filled by the full key: every key passed to the shared-string table's map (get / insert / contains_key / entry) derives from the content-key function of the item, not from a part of the content",
+        floor=3,
+    )
+    ITEM = "structs::shared_string_item::SharedStringItem"
+    TBL = "structs::shared_string_table::SharedStringTable"
+    for d, b in sorted(fb.mir.items()):
+        root = d.split("::{closure")[0]
+        if fb.mir.get(root, {}).get("self_ty") != TBL:
+            continue
+        fl = Flow(fb, b)
+        n = 0
+        for bi, t in fl.calls(lambda t: t.get("fn", "").startswith("std::collections::HashMap::") and t["fn"].split("::")[-1] in ("get", "insert", "contains_key", "entry", "get_mut", "remove")):
+            if len(t["args"]) < 2:
+                continue
+            recv = fl.atoms(t["args"][0])
+            if ("field", TBL, "map") not in recv:
+                continue
+            at = fl.atoms(t["args"][1])
+            full = any(a[0] == "call" and fb.mir.get(a[1], {}).get("self_ty") == ITEM and "hash" in a[1].split("::")[-1] for a in at)
+            chk.touch(d)
+            chk.ob(ru, "%s:%s#%d" % (d.split("::", 2)[-1], t["fn"].split("::")[-1], n), full, where="%s:%s" % (b["file"], t["ln"]),
+                   detail="key derives from %s" % sorted(a[1].split("::")[-1] for a in at if a[0] == "call" and not a[1].startswith(("std::", "core::", "<"))))
+            n += 1
     for adt, fn, exc in targets:
         d = "%s::%s" % (adt, fn)
         if d not in fb.mir or adt not in fb.adts:
